@@ -116,7 +116,9 @@ def extract(ix, te, ce, cls, chk, ESC=ESC):
                     loop = n
     sub = None
     for n in own_nodes(ev.node):
-        if isinstance(n, ast.Assign) and norm(n.targets[0]) == 'value' and isinstance(n.value, ast.Call) and \
+        # `value = re.sub(...)` ... `return value`, or (canonical form of the adjacent pair) `return re.sub(...)`
+        if ((isinstance(n, ast.Assign) and norm(n.targets[0]) == 'value') or isinstance(n, ast.Return)) and \
+                isinstance(n.value, ast.Call) and \
                 norm(n.value.func) == 're.sub' and len(n.value.args) == 3 and norm(n.value.args[2]) == 'value' and \
                 norm(n.value.args[0]).startswith('self._get_escape_char_regex('):
             sub = n
@@ -127,7 +129,7 @@ def extract(ix, te, ce, cls, chk, ESC=ESC):
     if sub is None or loop is None:
         v.repl = (E,)
         v.order_ok = False
-        v.returns_value = all(norm(r.value) == 'value' for r in own_nodes(ev.node) if isinstance(r, ast.Return))
+        v.returns_value = all(r is sub or norm(r.value) == 'value' for r in own_nodes(ev.node) if isinstance(r, ast.Return))
         v.extra = ['the %s step is missing' % ('replace-loop' if loop is None else 're.sub')]
         if loop is None:
             v.tables = [(l, {}) for l, t in v.tables]
@@ -161,7 +163,7 @@ def extract(ix, te, ce, cls, chk, ESC=ESC):
     v.repl = parts(word)
     ln, sn = g.node_of_ast.get(id(loop)), g.node_for(sub)
     v.order_ok = sn in g.reach(ln) and ln not in g.reach(sn)
-    v.returns_value = all(norm(r.value) == 'value' for r in own_nodes(ev.node) if isinstance(r, ast.Return))
+    v.returns_value = all(r is sub or norm(r.value) == 'value' for r in own_nodes(ev.node) if isinstance(r, ast.Return))
     # other statements that rewrite `value` between the two steps
     v.extra = [norm(n)[:60] for n in own_nodes(ev.node) if isinstance(n, ast.Assign) and norm(n.targets[0]) == 'value' and
                n is not sub and n not in loop.body and 'words' not in norm(n.value)]
@@ -197,6 +199,15 @@ def eval_translations(ix, te, ce, cls, gt, parts, chk, depth=0):
         try:
             local = {k: v[1] for k, v in env.items() if v[0] == 'const'}
             local.setdefault('escape_char', ESC_FOR[0])
+            if isinstance(e, ast.Call) and isinstance(e.func, ast.Name) and e.func.id in env and env[e.func.id][0] == 'func' \
+                    and not e.keywords:
+                params, body = env[e.func.id][1]      # a local one-expression helper: evaluate its body on the arguments
+                if len(params) != len(e.args):
+                    raise _Unsupported('call `%s`' % norm(e)[:40])
+                local2 = dict(local)
+                for p_, a_ in zip(params, e.args):
+                    local2[p_] = ce.eval(a_, gt.module, None, env=local)
+                return parts(ce.eval(body, gt.module, None, env=local2))
             return parts(ce.eval(e, gt.module, None, env=local))
         except NotConstant as ex:
             raise _Unsupported('sequence `%s` (%s)' % (norm(e)[:40], ex))
@@ -236,6 +247,11 @@ def eval_translations(ix, te, ce, cls, gt, parts, chk, depth=0):
     def run_block(stmts, env, label):
         for st in stmts:
             if isinstance(st, ast.Expr) and isinstance(st.value, ast.Constant):
+                continue
+            if isinstance(st, ast.FunctionDef) and len(st.body) == 1 and isinstance(st.body[0], ast.Return) and \
+                    st.body[0].value is not None and not st.args.vararg and not st.args.kwarg and not st.args.defaults:
+                env[st.name] = ('func', ([a.arg for a in st.args.args], st.body[0].value))
+                # the helper sees the enclosing locals: make the escape-character alias visible under its own name too
                 continue
             if isinstance(st, ast.Assign) and len(st.targets) == 1 and isinstance(st.targets[0], ast.Name):
                 name = st.targets[0].id
